@@ -201,7 +201,8 @@ def net_ops(lines):
             kind, pol = t[2], t[-1]
             pols.append(pol)
             body = t[3:-2]
-            op = {"distance": "poldist", "direction": "poldir", "angle": "polangle", "sdistance": "polsdist"}.get(kind)
+            op = {"distance": "poldist", "direction": "poldir", "angle": "polangle", "sdistance": "polsdist",
+                  "zangle": "polzangle"}.get(kind)
             if op:
                 ops.append(op + " " + " ".join(body))
                 exp.append("ok " + pol)
@@ -305,8 +306,11 @@ def signature(gkf, bad, txt, variant):
     if variant.startswith("omitted") and ("<height-differences>" in gkf or "<vectors>" in gkf) and rows:
         # approximate values were produced (no refusal) and are so wrong that observations are thrown out
         return "C06-acord-copyback"
-    if variant.startswith("omitted") and not rows and any("no adjustment" in b for b in bad) and \
-            ("No network points defined" in txt or "approximate coordinates" in " ".join(bad)):
+    if variant.startswith("omitted") and not rows and \
+            ((any("no adjustment" in b for b in bad) and
+              ("No network points defined" in txt or "approximate coordinates" in " ".join(bad)))
+             or "missing coordiantes" in txt):
+        # no approximate coordinates were produced for some point (refusal, or the point is dropped as "missing")
         return "C06-acord-incomplete"
     if bad and all(re.match(r"\S+\.z off by|residual (zenith-angle|slope-distance)", b) for b in bad):
         return "C06-z-underiterated"
@@ -395,7 +399,8 @@ def e2e(ctx, corr, gd, ncases, wd):
                 corr.fail(f"end-to-end ({fam}, {vn}, {alg}): " + "; ".join(b2[:4]),
                           {"stream": "e2e", "gkf": t2, "alg": alg, "variant": vn, "heights": heights, "family": fam,
                            "true": {p: {c: q[c] for c in ("x", "y", "z") if c in q} for p, q in stt["points"].items()},
-                           "truth_net": stt, "signature": sig, "unshrunk_obs": N.count_obs(v), "shrunk_obs": N.count_obs(sv)},
+                           "truth_net": stt, "signature": sig, "unshrunk_obs": N.count_obs(v), "shrunk_obs": N.count_obs(sv),
+                           "unshrunk_gkf": text, "unshrunk_truth": truth, "how": {p: q.get("how") for p, q in truth["points"].items()}},
                           site={"F15": "Orientation::orientation", "C06-stale-x": "LocalNetwork::refine_approx_coordinates",
                                 "C06-acord-copyback": "AcordHdiff::execute / AcordVector::execute",
                                 "C06-z-underiterated": "TestLinearizationVisitor::visit(Z_Angle*) / refine_obsdh_reductions",
@@ -535,9 +540,9 @@ def search(ctx, broken, corr):
 def classify(ctx, failure):
     r = failure.replay if isinstance(failure.replay, dict) else {}
     sig = r.get("signature", "")
-    # F15 (orientation seam) is repaired (01e764d): a recurrence is reported, not classified
+    # F15 (01e764d) and F18 (45be66f, 2bd0b4a) are repaired: a recurrence is reported, not classified
     return {"C06-stale-x": "C06-refine-stale-unknowns", "C06-acord-copyback": "C06-acord-copyback",
-            "C06-z-underiterated": "C06-F18", "C06-zderived-dh": "C06-F18", "C06-acord-incomplete": "C06-F19"}.get(sig)
+            "C06-acord-incomplete": "C06-F19"}.get(sig)
 
 
 def explained_by_known(ctx, broken_item, matched_ids):
